@@ -406,6 +406,18 @@ func ownTemplates() []chainx.Tpl {
 				func() (*transaction.Transaction, error) { // registration fee does not fit into the system fee: fault
 					return call(w, []int{3}, 5*gas, neoH, "registerCandidate", pub(3))
 				},
+				func() (*transaction.Transaction, error) { // governance parameters: value out of range, not the committee: fault
+					return call(w, []int{3}, gas, neoH, "setGasPerBlock", int64(11*gas))
+				},
+				func() (*transaction.Transaction, error) {
+					return call(w, []int{3}, gas, neoH, "setGasPerBlock", int64(gas))
+				},
+				func() (*transaction.Transaction, error) {
+					return call(w, []int{3}, gas, neoH, "setRegisterPrice", int64(0))
+				},
+				func() (*transaction.Transaction, error) {
+					return call(w, []int{3}, gas, neoH, "setRegisterPrice", int64(5))
+				},
 				func() (*transaction.Transaction, error) { // NEP-27 registration of a key the payer does not own: fault, GAS stays
 					return call(w, []int{3}, 3*gas, gasH, "transfer", acc(3), neoH, int64(1000*gas), pub(4))
 				},
@@ -474,7 +486,7 @@ func ownTemplates() []chainx.Tpl {
 			}
 			return seq(fs...)
 		}},
-		{"block2+recover@1y", func(w *chainx.World) (txs, error) { // (block dated one year ahead) committee recovers the funds of blocked account 2 into the Treasury
+		{"recover2@1y", func(w *chainx.World) (txs, error) { // (block dated one year ahead) committee recovers the funds of blocked account 2 into the Treasury
 			cs := committeeSigner(w)
 			return seq(
 				func() (*transaction.Transaction, error) {
@@ -511,6 +523,9 @@ func ownTemplates() []chainx.Tpl {
 				},
 				func() (*transaction.Transaction, error) {
 					return call(w, []int{2}, gas, gasH, "transfer", acc(2), notH, int64(3*gas), nil)
+				},
+				func() (*transaction.Transaction, error) { // first deposit below twice the notary fee per key
+					return call(w, []int{6}, gas, gasH, "transfer", acc(6), notH, int64(1), []any{nil, int64(w.N.Height() + 5)})
 				},
 			)
 		}},
